@@ -174,9 +174,26 @@ def make_data(spec, op, fid, positive=False, mult=None, form=None):
     scalar = payload["kind"] in ("scalar", "series")
     kw = dict(space_dim=spec["space_dim"], scalar=scalar, series=series,
               dimensions=[float(b * r) * v for b, r, v in zip(spec["base"], spec["r"], spec["voxel_size"])])
+    # the physical size recorded in the Image is the caller's business: integration is defined by the geometry
+    if op.get("img_dims") == "unit":
+        kw.pop("dimensions")
+    elif op.get("img_dims") == "other":
+        kw["dimensions"] = [3.0 * d for d in kw["dimensions"]]
     if series:
         kw["time"] = [float(i) for i in range(payload["t"])]
     return fb, darsia.Image(arr, **kw)
+
+
+def kept_image(store, name, spec, op, fid, mult):
+    """A caller-owned Image object that lives across calls: the first use creates it, later uses with other content
+    write the new pixel values INTO the same object (what a caller re-using a buffer does)."""
+    fb, img = make_data(spec, op, fid, positive=True, mult=mult, form="image")
+    cur = store.get(name)
+    if cur is None or cur.img.shape != img.img.shape or cur.img.dtype != img.img.dtype:
+        store[name] = img
+    else:
+        cur.img[...] = img.img
+    return fb, store[name]
 
 
 # ----------------------------------------------------------------------------- seams
@@ -316,6 +333,8 @@ class C03Engine(Engine):
         op = {"op": kind, "obj": oid, "m": self._gen_mult(rng, spec, want)}
         if rng.random() < 0.25:
             op["scale"] = rng.choice([2.0 ** -20, 2.0 ** -10, 2.0 ** 10])  # very small / large data magnitudes
+        if rng.random() < 0.3:
+            op["img_dims"] = rng.choice(["unit", "other"])
         if kind == "integrate":
             op.update(field=rng.randint(0, 9999), payload=self._gen_payload(rng),
                       form=rng.choice(["array", "image"]), dtype=rng.choice(["float64", "float64", "float32"]))
@@ -326,6 +345,10 @@ class C03Engine(Engine):
             op.update(img=rng.randint(0, 9999), ref=rng.randint(0, 9999),
                       m_ref=self._gen_mult(rng, spec, rng.choice(["native", "coarser", "finer"])),
                       payload=rng.choice([{"kind": "scalar"}, {"kind": "scalar"}, {"kind": "series", "t": rng.randint(1, 3)}]))
+            if rng.random() < 0.5:
+                op["ref_keep"] = "refbuf-" + oid  # the caller re-uses one reference Image object (buffer) per geometry
+                op["m_ref"] = list(spec["r"])
+                op["payload"] = {"kind": "scalar"}
         return op
 
     def generate(self, seed: int, tier: str) -> dict:
@@ -358,10 +381,11 @@ class C03Engine(Engine):
                 "schedule": order, "faults": faults, "env": envp}
 
     # ------------------------------------------------------------------ execution
-    def _do_op(self, geom, spec, op):
+    def _do_op(self, geom, spec, op, store=None):
         """Execute one op on ``geom``; returns (value, reference or None, aux dict)."""
         kind = op["op"]
         aux = {}
+        store = {} if store is None else store
         if kind == "integrate":
             fb, data = make_data(spec, op, op["field"])
             val = geom.integrate(data)
@@ -377,7 +401,10 @@ class C03Engine(Engine):
             return iz, op["a"] * fx + op["b"] * fy, aux
         if kind == "normalize":
             fi, img = make_data(spec, op, op["img"], positive=True, form="image")
-            fr, ref = make_data(spec, op, op["ref"], positive=True, mult=op["m_ref"], form="image")
+            if op.get("ref_keep"):
+                fr, ref = kept_image(store, op["ref_keep"], spec, op, op["ref"], op["m_ref"])
+            else:
+                fr, ref = make_data(spec, op, op["ref"], positive=True, mult=op["m_ref"], form="image")
             out = geom.normalize(img, ref)
             i_out = geom.integrate(out)
             i_ref = geom.integrate(ref)
@@ -393,6 +420,7 @@ class C03Engine(Engine):
 
     def _run_schedule(self, case, schedule, out: Outcome | None, record=True):
         objects = {k: build_geometry(s) for k, s in case["objects"].items()}
+        store: dict = {}  # caller-owned data objects that live across calls
         pcs = {c: 0 for c in case["clients"]}
         results = {c: [] for c in case["clients"]}
         hist = {k: [] for k in objects}
@@ -426,7 +454,7 @@ class C03Engine(Engine):
                 nf = len(proxy.fired)
                 proxy.enabled = True
                 try:
-                    val, fb, aux = self._do_op(geom, spec, op)
+                    val, fb, aux = self._do_op(geom, spec, op, store)
                     exc = None
                 except (Exception, KeyboardInterrupt) as e:
                     val, fb, aux, exc = None, None, {}, type(e).__name__
@@ -474,7 +502,7 @@ class C03Engine(Engine):
                 # H: fresh clone asked only this question
                 fresh = build_geometry(spec)
                 try:
-                    fval, _, _ = self._do_op(fresh, spec, op)
+                    fval, _, _ = self._do_op(fresh, spec, op, store)
                     fexc = None
                 except Exception as e:
                     fval, fexc = None, type(e).__name__
@@ -576,10 +604,11 @@ class C03Engine(Engine):
         # simplify ops
         for c, prog in case["clients"].items():
             for j, op in enumerate(prog):
-                if "scale" in op:
-                    k = copy.deepcopy(case)
-                    k["clients"][c][j].pop("scale")
-                    yield k
+                for fld in ("scale", "img_dims", "ref_keep"):
+                    if fld in op:
+                        k = copy.deepcopy(case)
+                        k["clients"][c][j].pop(fld)
+                        yield k
                 for field, val in (("payload", {"kind": "scalar"}), ("form", "array"), ("dtype", "float64"),
                                    ("field", 0), ("x", 0), ("y", 1), ("img", 0), ("ref", 1)):
                     if field in op and op[field] != val:
